@@ -9,7 +9,7 @@
    kind ('cheap' 0, 'medium' 1, 'expensive' 2) from THIS run's tables (Run.GenQuad). *)
 From Coq Require Import Reals QArith ZArith String List Bool Lra.
 From Verif.Sem Require Import Field Val RInst RLemmas.
-From Verif.C18 Require Import Model Spec SemExt ProofsScalar ProofsGeom ProofsRigid ProofsRot ProofsQuad ProofsTrans
+From Verif.C18 Require Import Model Spec SemExt ProofsScalar ProofsGeom ProofsRigid ProofsBoundary ProofsRot ProofsQuad ProofsTrans
      ProofsRefute ProofsTables.
 From Run Require Import GenAtoms GenMaterial GenCyl GenBase GenQuad GenAngle Tie.
 Import ListNotations.
@@ -48,6 +48,41 @@ Proof. exact rigid_motion_paths. Qed.
 Theorem C18_other_end_paths : forall (c : cylinder RO) (s n : vec RO),
   wf_cyl c -> unit3 (tov n) -> beam_intersection RO (flip_cyl c) s n = beam_intersection RO c s n.
 Proof. exact other_end_paths. Qed.
+
+(* 3b. rays that start ON the boundary (the solid is closed).  axial3 a base p = (p - base).a and
+       radial3 a base p = |(p - base) - ((p - base).a) a| (ProofsBoundary.v) are the two coordinates `inside` constrains.
+       A ray exactly perpendicular to the axis from any point of the closed slab 0 <= z <= h -- the base plane and the
+       top plane included -- has the length of its part within the radius (the end-face planes cut nothing off), the same
+       at every such height; from center_of_base and from the centre of the top face that is r.  A ray exactly parallel
+       to the axis from any point of the closed solid -- lateral surface and edge circles included -- at height z has
+       length h - z (along +axis) and z (along -axis). *)
+Theorem C18_perpendicular_ray_sees_the_disk : forall (c : cylinder RO) (s n : vec RO),
+  wf_cyl c -> unit3 (tov n) -> dot3 (tov n) (tov (cy_axis c)) = 0 ->
+  0 <= axial3 (tov (cy_axis c)) (tov (cy_base c)) (tov s) <= cy_h c ->
+  exists L, beam_intersection RO c s n = @Fin RO L /\
+    segment_length (fun t => 0 <= t /\ radial3 (tov (cy_axis c)) (tov (cy_base c)) (ray (tov s) (tov n) t) <= cy_r c) L.
+Proof. exact perpendicular_ray_sees_the_disk. Qed.
+Theorem C18_perpendicular_ray_same_at_every_height : forall (c : cylinder RO) (s n : vec RO) (k : R),
+  wf_cyl c -> unit3 (tov n) -> dot3 (tov n) (tov (cy_axis c)) = 0 ->
+  0 <= axial3 (tov (cy_axis c)) (tov (cy_base c)) (tov s) <= cy_h c ->
+  0 <= axial3 (tov (cy_axis c)) (tov (cy_base c)) (tov s) + k <= cy_h c ->
+  beam_intersection RO c (ofv (add3 (tov s) (scale3 k (tov (cy_axis c))))) n = beam_intersection RO c s n.
+Proof. exact perpendicular_ray_same_at_every_height. Qed.
+Theorem C18_center_of_base_perpendicular_ray : forall (c : cylinder RO) (n : vec RO),
+  wf_cyl c -> unit3 (tov n) -> dot3 (tov n) (tov (cy_axis c)) = 0 ->
+  beam_intersection RO c (cy_base c) n = @Fin RO (cy_r c).
+Proof. exact center_of_base_perpendicular_ray. Qed.
+Theorem C18_top_centre_perpendicular_ray : forall (c : cylinder RO) (n : vec RO),
+  wf_cyl c -> unit3 (tov n) -> dot3 (tov n) (tov (cy_axis c)) = 0 ->
+  beam_intersection RO c (ofv (add3 (tov (cy_base c)) (scale3 (cy_h c) (tov (cy_axis c))))) n = @Fin RO (cy_r c).
+Proof. exact top_centre_perpendicular_ray. Qed.
+Theorem C18_axial_ray_from_closed_solid : forall (c : cylinder RO) (s : vec RO),
+  wf_cyl c ->
+  let z := axial3 (tov (cy_axis c)) (tov (cy_base c)) (tov s) in
+  0 <= z <= cy_h c -> radial3 (tov (cy_axis c)) (tov (cy_base c)) (tov s) <= cy_r c ->
+  beam_intersection RO c s (ofv (scale3 1 (tov (cy_axis c)))) = @Fin RO (cy_h c - z) /\
+  beam_intersection RO c s (ofv (scale3 (-1) (tov (cy_axis c)))) = @Fin RO z.
+Proof. exact axial_ray_from_closed_solid. Qed.
 
 (* 4. every quadrature point lies inside the solid, for EVERY unit axis with |z x a| = 0 or >= 1e-10,
       every kind, every k — for the angle formula of the CURRENT source (this theorem does not
@@ -166,6 +201,13 @@ Proof.
   destruct H as [k [line Hin]]. exists (rule_cheap line). split; [exact (rule_0 k line Hin)|].
   exact (proj1 (proj2 (proj2 (rule_facts 0 _ (rule_0 k line Hin))))).
 Qed.
+Example C18_nonvacuous_boundary_ray :
+  let c := @mkcyl RO (@mkvec RO 0 0 1) (@mkvec RO 0 0 0) 1 1 in
+  let n : vec RO := @mkvec RO 1 0 0 in
+  wf_cyl c /\ unit3 (tov n) /\ dot3 (tov n) (tov (cy_axis c)) = 0 /\
+  0 <= axial3 (tov (cy_axis c)) (tov (cy_base c)) (tov (cy_base c)) <= cy_h c /\
+  radial3 (tov (cy_axis c)) (tov (cy_base c)) (tov (cy_base c)) <= cy_r c.
+Proof. exact boundary_hypotheses_satisfiable. Qed.
 Example C18_nonvacuous_orthogonal : orthogonal (m3 0 1 0 (-1) 0 0 0 0 (-1)).
 Proof. unfold orthogonal, dot3, col1, col2, col3. cbn. repeat split; lra. Qed.
 Example C18_nonvacuous_transmission : wl_ok [(1, 2); (3, 0)] /\ Rsum (map fst [(1, 2); (3, 0)]) = 4.
@@ -175,6 +217,11 @@ Print Assumptions C18_ray_inside_iff_interval.
 Print Assumptions C18_path_length_is_measure.
 Print Assumptions C18_rigid_motion_paths.
 Print Assumptions C18_other_end_paths.
+Print Assumptions C18_perpendicular_ray_sees_the_disk.
+Print Assumptions C18_perpendicular_ray_same_at_every_height.
+Print Assumptions C18_center_of_base_perpendicular_ray.
+Print Assumptions C18_top_centre_perpendicular_ray.
+Print Assumptions C18_axial_ray_from_closed_solid.
 Print Assumptions C18_quadrature_points_inside.
 Print Assumptions C18_rotation_asin_refuted.
 Print Assumptions C18_quadrature_asin_refuted.
